@@ -78,8 +78,12 @@ func (w *world) honestBlock(proposer int, variant uint64) (*types.Block, *types.
 	return w.f.MakeBlock(st, app, proposer, lc, nil)
 }
 
-func (w *world) propose(r int, b *types.Block, ps *types.PartSet) {
-	p := w.f.Proposal(w.proposer(r), w.h, r, ps.Header(), -1, types.BlockID{})
+func (w *world) propose(r, pol int, b *types.Block, ps *types.PartSet) {
+	polID := types.BlockID{}
+	if pol >= 0 {
+		polID = types.BlockID{Hash: b.Hash(), PartsHeader: ps.Header()}
+	}
+	p := w.f.Proposal(w.proposer(r), w.h, r, ps.Header(), pol, polID)
 	w.in(&cs.ProposalMessage{Proposal: p})
 	for i := 0; i < ps.Total(); i++ {
 		w.in(&cs.BlockPartMessage{Height: w.h, Round: r, Part: ps.GetPart(i)})
@@ -114,7 +118,7 @@ func (w *world) commitHonest() {
 		id = pv.BlockID
 	} else {
 		b, ps := w.honestBlock(w.proposer(0), 7)
-		w.propose(0, b, ps)
+		w.propose(0, -1, b, ps)
 		id = csnet.BlockID(b, ps)
 	}
 	w.votes(types.VoteTypePrevote, 0, id)
@@ -592,7 +596,7 @@ type result struct {
 var killCount int
 var killMu sync.Mutex
 
-func runCase(f *csnet.Fixture, self int, h uint64, r int, cors []corruption) result {
+func runCase(f *csnet.Fixture, self int, h uint64, r, pol int, cors []corruption) result {
 	var res result
 	w := newWorld(f, self)
 	defer w.n.Close()
@@ -643,7 +647,7 @@ func runCase(f *csnet.Fixture, self int, h uint64, r int, cors []corruption) res
 	killMu.Lock()
 	k0 := killCount
 	killMu.Unlock()
-	if p, pv := vk.Catch(func() { w.propose(r, b, ps) }); p {
+	if p, pv := vk.Catch(func() { w.propose(r, pol, b, ps) }); p {
 		res.viol = [2]string{"proposal-panics-node:" + names[0] + ":" + short(pv), fmt.Sprintf("h%d r%d: proposing a block with [%s] makes the state machine panic: %v", h, r, tag, short(pv))}
 		return res
 	}
@@ -720,6 +724,7 @@ func main() {
 	type job struct {
 		h    uint64
 		r    int
+		pol  int // proof-of-lock round the proposer claims (-1 none; an earlier round that ended in a nil polka)
 		self int
 		cs   []corruption
 	}
@@ -729,8 +734,10 @@ func main() {
 	for h := uint64(1); h <= 3; h++ {
 		for rd := 0; rd <= 1; rd++ {
 			for self := 0; self < 4; self++ {
-				for _, c := range cors {
-					jobs = append(jobs, job{h, rd, self, []corruption{c}})
+				for pol := -1; pol < rd; pol++ {
+					for _, c := range cors {
+						jobs = append(jobs, job{h, rd, pol, self, []corruption{c}})
+					}
 				}
 			}
 		}
@@ -745,7 +752,7 @@ func main() {
 			for _, a := range cors {
 				for _, b := range cors {
 					if a.name < b.name {
-						jobs = append(jobs, job{h, rd, 3, []corruption{a, b}})
+						jobs = append(jobs, job{h, rd, rd - 1, 3, []corruption{a, b}})
 					}
 				}
 			}
@@ -759,7 +766,7 @@ func main() {
 			return
 		}
 		j := jobs[i]
-		res := runCase(f, j.self, j.h, j.r, j.cs)
+		res := runCase(f, j.self, j.h, j.r, j.pol, j.cs)
 		mu.Lock()
 		defer mu.Unlock()
 		done++
@@ -783,7 +790,7 @@ func main() {
 			names = append(names, c.name)
 		}
 		if res.viol[0] != "" {
-			r.Violation(res.viol[0], res.viol[1], map[string]interface{}{"height": j.h, "round": j.r, "node": j.self, "corruptions": names})
+			r.Violation(res.viol[0], res.viol[1], map[string]interface{}{"height": j.h, "round": j.r, "pol_round": j.pol, "node": j.self, "corruptions": names})
 		}
 		if i%97 == 0 {
 			r.Sample(map[string]interface{}{"height": j.h, "round": j.r, "corruptions": names, "reference_valid": res.refOK, "ValidateBlock_valid": res.repoOK,
